@@ -229,14 +229,17 @@ where
         // Draw the goal root from the planner's own (seeded) generator when there is one, so that
         // a seeded planner does not depend on the thread-local generator.
         let goal_state = match self.rng.as_mut() {
-            Some(rng) => pd.goal.sample_goal(rng.as_mut()).unwrap(),
-            None => pd.goal.sample_goal(&mut rand::rng()).unwrap(),
+            Some(rng) => pd.goal.sample_goal(rng.as_mut()),
+            None => pd.goal.sample_goal(&mut rand::rng()),
         };
-        let goal_node = Node {
-            state: goal_state,
-            parent_index: None,
-        };
-        self.goal_tree.push(goal_node);
+        // setup() cannot report a failure: without a goal root the goal tree stays empty and
+        // solve() samples the root itself (or reports the error).
+        if let Ok(goal_state) = goal_state {
+            self.goal_tree.push(Node {
+                state: goal_state,
+                parent_index: None,
+            });
+        }
     }
 
     fn solve(&mut self, timeout: Duration) -> Result<Path<S>, PlanningError> {
@@ -267,19 +270,34 @@ where
 
         // The goal tree must be rooted at a valid goal state: resample the root until the
         // validity checker accepts it or the time runs out.
-        let mut root_ok = true;
-        while self.goal_tree.len() == 1 && !vc.is_valid(&self.goal_tree[0].state) {
+        let mut root_error = None;
+        if self.goal_tree.is_empty() {
+            match goal.sample_goal(&mut rng) {
+                Ok(state) => self.goal_tree.push(Node {
+                    state,
+                    parent_index: None,
+                }),
+                Err(_) => root_error = Some(PlanningError::NoSolutionFound),
+            }
+        }
+        while root_error.is_none()
+            && self.goal_tree.len() == 1
+            && !vc.is_valid(&self.goal_tree[0].state)
+        {
             if start_time.elapsed() > timeout {
-                root_ok = false;
+                root_error = Some(PlanningError::Timeout);
                 break;
             }
-            self.goal_tree[0].state = goal.sample_goal(&mut rng).unwrap();
+            match goal.sample_goal(&mut rng) {
+                Ok(state) => self.goal_tree[0].state = state,
+                Err(_) => root_error = Some(PlanningError::NoSolutionFound),
+            }
         }
 
         // Main loop
         let result = loop {
-            if !root_ok {
-                break Err(PlanningError::Timeout);
+            if let Some(error) = root_error {
+                break Err(error);
             }
 
             // 1. Check for timeout
@@ -296,12 +314,16 @@ where
                     (&mut self.goal_tree, &mut self.start_tree, false)
                 };
 
-            // 3. Sample a random target state `q_rand`, with goal biasing.
-            // TODO: Handle sampling failures.
-            let q_rand = if rng.random_bool(self.goal_bias) {
-                goal.sample_goal(&mut rng).unwrap()
+            // 3. Sample a random target state `q_rand`, with goal biasing. A sampler that cannot
+            //    deliver a state ends the search with an error.
+            let sampled = if rng.random_bool(self.goal_bias) {
+                goal.sample_goal(&mut rng)
             } else {
-                pd.space.sample_uniform(&mut rng).unwrap()
+                pd.space.sample_uniform(&mut rng)
+            };
+            let q_rand = match sampled {
+                Ok(state) => state,
+                Err(_) => break Err(PlanningError::NoSolutionFound),
             };
 
             // 4. Try to extend tree_a towards q_rand.
